@@ -316,6 +316,9 @@ func (fx *FnCtx) callEnv(st *State, old *State, callee *ssa.Function, cc *ssa.Ca
 	for i := off; i < len(all); i++ {
 		env.vars[fmt.Sprintf("arg%d", i-off)] = all[i]
 	}
+	if callee == nil && !cc.IsInvoke() && fnv != nil {
+		env.vars["recv"] = fnv // dynamic call: the function value itself
+	}
 	if callee != nil {
 		env.fn = callee
 		if callee.Pkg != nil {
